@@ -150,6 +150,7 @@ ADDED3 = {
     'C16': ' Later: QUEUE-SELF (a method that moves the items of *this while reading its const Queue & argument by index runs only where &argument != this was tested alone; found and fixed q.AddHeadMulti(q)).',
     'C14': ' Later: R-REC over the expression parser and the archive factory (every recursive cycle reachable from CreateQueryFilterFromExpression / CreateQueryFilter carries a depth guard, a decremented depth argument, a single-shot NULL argument, or belongs to the Message-nesting family; found and fixed the unbounded recursion on nested parentheses).',
     'C18': ' Later: DEADLINE (a Lock* method passes its deadline to every call that can block and gives up held locks only when the deadline is not zero; found and fixed the blocking try-upgrade; the untimed restore after a failed timed upgrade is the one known finding).',
+    'C20': ' Later: RE-ASK stable-on-return (after every user callback that runs inside GetPulseTimeAux — the node\'s own GetPulseTime() and the recursive calls on its children — the node examines its own valid flag, and the pending-children test, again before it returns; found and fixed a node that was never asked again after a child invalidated it during the recalculation).',
     'C13': ' Later: INDEX-OBSERVERS covers every call that adds an index entry (InsertOrderedChild, ReorderChild, InsertIndexEntryAt): the owner session is flagged as having indexing present (found and fixed: REORDERDATA and CloneDataNodeSubtree did not).',
 }
 for _k, _v in ADDED3.items():
